@@ -91,6 +91,9 @@ pub enum FinalReply {
     SealedWithSeq(u32),
     /// a correctly sealed and signed value of this many bytes (0x5A...), whatever the key
     SealedBlob(usize),
+    /// a pubKeyAuth token made of a signature header the server cannot have computed (version 1, an arbitrary checksum,
+    /// sequence number 0) followed by this many arbitrary "ciphertext" bytes, in a well-formed TSRequest
+    ForgedToken(usize),
 }
 
 #[derive(Clone, Debug, PartialEq, Eq, Serialize, Deserialize)]
@@ -137,6 +140,12 @@ pub struct ServerParams {
     pub sc_security_optional_lengths: bool,
     /// flagsHi of the basic security header of the licensing PDU (without SEC_FLAGSHI_VALID it may hold anything)
     pub licence_flags_hi: u16,
+    /// the server closes the connection when the MCS connect-initial arrives (the security phase — TLS, CredSSP — is over,
+    /// nothing of MCS is answered): what a server does that refuses what was delegated to it
+    pub hang_up_after_security: bool,
+    /// re-activation: the deactivate-all rides in ONE send-data indication behind another share PDU (1 = a Save Session
+    /// Info data PDU, which this client does not parse; 2 = a Set Error Info PDU); 0 = alone in its frame
+    pub deactivate_packed_behind: u8,
     /// TLS peer only: every server message (TPKT / fast-path frames, not the CredSSP messages) is cut into TLS records of at most this many plaintext bytes (0 = one
     /// record per message), so that record boundaries fall inside frame headers and bodies
     pub tls_record_cap: usize,
@@ -185,6 +194,8 @@ impl Default for ServerParams {
             passwordless: false,
             sc_security_optional_lengths: false,
             licence_flags_hi: 0,
+            hang_up_after_security: false,
+            deactivate_packed_behind: 0,
             tls_record_cap: 0,
         }
     }
@@ -902,6 +913,10 @@ impl RefServer {
             }
             Phase::ExpectConnectInitial => {
                 self.record("connect_initial", unit, pending, tls);
+                if self.p.hang_up_after_security {
+                    self.phase = Phase::Closed;
+                    return Action { out: vec![], start_tls: false, close: true };
+                }
                 if framing::parse_x224_dt(unit).is_err() {
                     return self.fail("connect-initial: not an X.224 data TPDU".into());
                 }
@@ -1028,7 +1043,14 @@ impl RefServer {
             }
             Phase::Active => {
                 if self.activations_done <= self.p.reactivations {
-                    let d = self.sdi(&share::deactivate_all(share_id_of_activation(self.p.share_id, if self.p.reuse_share_id { 0 } else { self.activations_done - 1 }), 1002));
+                    let old_share = share_id_of_activation(self.p.share_id, if self.p.reuse_share_id { 0 } else { self.activations_done - 1 });
+                    let mut body = match self.p.deactivate_packed_behind {
+                        1 => share::share_data(old_share, 1002, share::PDUTYPE2_SAVE_SESSION_INFO, &[2, 0, 0, 0, 0, 0, 0, 0]),
+                        2 => share::set_error_info(old_share, 1002, 0),
+                        _ => vec![],
+                    };
+                    body.extend(share::deactivate_all(old_share, 1002));
+                    let d = self.sdi(&body);
                     self.emit("deactivate_all", d, &mut out);
                     let b = self.demand_active_bytes();
                     self.emit("demand_active", b, &mut out);
@@ -1214,6 +1236,11 @@ impl RefServer {
                 wrap_honest(&mut c, &honest_plain)
             }
             FinalReply::SealedBlob(n) => wrap_honest(&mut s2c, &vec![0x5A; n]),
+            FinalReply::ForgedToken(n) => {
+                let mut tok = vec![1u8, 0, 0, 0, 0x11, 0x22, 0x33, 0x44, 0x55, 0x66, 0x77, 0x88, 0, 0, 0, 0];
+                tok.extend((0..n).map(|i| (i as u8).wrapping_mul(37) ^ 0xA5));
+                ts_request(2, None, None, Some(&tok))
+            }
         })
     }
 }
